@@ -1174,7 +1174,8 @@ def _len(eng, args, kwargs, node):
         if not eng.abstract:
             raise EngineError("len of opaque")
         f = V.uf("len", V.vsort(), z3.IntSort(), z3.IntSort())
-        r = SInt(f(x.t, z3.IntVal(eng.ghost.get("heapver", 0))))
+        ver = 0 if x.t.get_id() in eng.immutable_ids else eng.ghost.get("heapver", 0)
+        r = SInt(f(x.t, z3.IntVal(ver)))
         eng.pc.append(r.t >= 0)
         return r
     if x is None or isinstance(x, (int, SInt, SBool)):
